@@ -59,13 +59,16 @@ static void canc_generic_body() {
   }), std::bool_constant<Early>{}};
   auto* h = kit::make_heap_op(std::move(snd), kit::FreeingRcv<>{&rs, &ctl, src.get_token()}, ctl);
   if (stop_first) src.request_stop();
+  bool no_completer = vmcrt::arg(3, 0) != 0;  // nobody completes naturally: the stop request must
   std::thread completer([&] {
+    if (no_completer) return;
     vmc::wait_until([&] { return ctx.claim.v_.load() != nullptr || rs.count > 0; });
     if (void* p = ctx.claim.exchange(nullptr, std::memory_order_acq_rel)) ctx.finish(p);
   });
   std::thread stopper([&] { if (!stop_first) src.request_stop(); });
   unifex::start(h->op);
   completer.join(); stopper.join();
+  if (no_completer) vmc::check(rs.count == 1 && rs.how == 'D', "C19,C04", "stop-ignored", "stop request on a running cancellable operation did not complete it with done");
   vmc::check(rs.count == 1, "C19,C01", "not-once", "receiver of a cancellable operation not completed exactly once");
   vmc::check(ctl.freed, "C19", "not-freed", "harness: op not freed");
   vmc::check(ctx.stops <= 1, "C19", "stop-twice", "user stop() hook ran more than once");
